@@ -20,4 +20,4 @@ mv tests/$name.rs /dev/shm/$name.$$.rs
 timeout 600 cargo test --offline 2>&1 | grep -E "^test result" | head -4
 mv /dev/shm/$name.$$.rs tests/$name.rs
 echo "--- demo with the mutant (must fail)"
-timeout 600 cargo test --offline --features client --test $name 2>&1 | grep -E "^test result|panicked" | head -4
+timeout 600 cargo test --offline --features client --test $name 2>&1 | grep -E "^test result|panicked" | head -12
